@@ -27,6 +27,7 @@ K_CST = "ckks_add_pt_const:constant-limbs-exceed-destination-assert"
 K_RESCALE = "ckks_rescale_into:smaller-destination-inconsistent-meta"
 K_ZERO = "ckks_*_rnx:zero-precision-plaintext-underflow"
 K_ENC = "ckks_encrypt_sk:noise-k-outside-buffer-assert"
+K_MULCROSS = "ckks_mul:crossed-delta-budget-misscaled-product"
 
 
 def div_ceil(x, b):
@@ -615,16 +616,15 @@ class Gen:
             chosen = None
             for _try in range(10):
                 c = self.candidate(sim, boundary)
-                if boundary:
-                    chosen = c
-                    break
                 trial = Sim(self.q, self.keys, self.maxprec, [(x.size, x.d, x.b) for x in sim.pool])
                 out, key = trial.step([str(x) for x in c])
-                if out.startswith("ok") and key is None:
+                if any(x.size == 0 for x in trial.pool):
+                    continue      # zero-limb ciphertexts: degenerate, FFT64 asserts a_size > 0 where NTT120 accepts
+                if boundary or (out.startswith("ok") and key is None):
                     chosen = c
                     break
             if chosen is None:
-                chosen = ["compact", self.r.below(len(sim.pool))]
+                chosen = ["neg_assign", self.r.below(len(sim.pool))]
             n_boundary += int(boundary)
             toks = [str(x) for x in chosen]
             out, _ = sim.step(toks)
@@ -644,12 +644,13 @@ def parse_header(line):
 
 
 def oracle(line, impl_steps):
-    """Property oracle: judges the implementation's own outputs against the statement.
-    Returns a list of (step index, key, description)."""
+    """Property oracle: judges the implementation's own outputs against the statement, along the
+    run that a caller propagating errors with `?` performs: up to and including the first call that
+    does not return Ok.  Returns a list with at most one (step index, key, description)."""
     kv, keys, pool, ops = parse_header(line)
     q = int(kv["base2k"])
     sim = Sim(q, keys, int(kv.get("maxprec", 53)), pool)
-    found = []
+    prev = None
     for i, op in enumerate(ops):
         if i >= len(impl_steps):
             break
@@ -658,27 +659,52 @@ def oracle(line, impl_steps):
         name = op.split(",")[0]
         if got.startswith("panic") or got.startswith("harness-panic"):
             k = key if want.startswith("panic") else None
-            found.append((i, k, f"step {i} `{op}` panics ({got}); the statement allows only ok/err"))
-            break
+            return [(i, k, f"step {i} `{op}` panics ({got}); the statement allows only ok/err")]
         if got.startswith("ok@"):
-            # invariant on every slot the implementation reports
-            for j, e in enumerate(got[3:].split("/")):
+            cur = got[3:].split("/")
+            for j, e in enumerate(cur):
                 d, b, s = (int(x) for x in e.split("."))
-                before = None
-                if d + b > s * q:
-                    # only report the step that creates the inconsistency
-                    if i == 0 or not impl_steps[i - 1].split("@")[-1].split("/")[j] == e:
-                        k = K_RESCALE if name == "rescale" else None
-                        found.append((i, k, f"step {i} `{op}` returns ok with log_delta+log_budget={d + b} > max_k={s * q} on slot {j}"))
+                if d + b > s * q and (prev is None or j >= len(prev) or prev[j] != e):
+                    k = K_RESCALE if name == "rescale" else None
+                    return [(i, k, f"step {i} `{op}` returns ok with log_delta+log_budget={d + b} > max_k={s * q} on slot {j}")]
+            prev = cur
+        if got.split("@")[0] != want.split("@")[0]:
+            # ok / err / error fields differ from the documented conditions (the mirror encodes them)
+            return [(i, None, f"step {i} `{op}`: implementation {got.split('@')[0]}, documented behaviour {want.split('@')[0]}")]
+        if got.startswith("err"):
+            break          # the caller stops here
         if got != want:
-            # err/ok mismatch against the documented conditions (the mirror encodes them)
-            if got.split("@")[0] != want.split("@")[0]:
-                found.append((i, None, f"step {i} `{op}`: implementation {got.split('@')[0]}, documented behaviour {want.split('@')[0]}"))
-            # resynchronise on the implementation's state
-            st = got.split("@")[-1]
-            if "." in st:
-                sim.pool = [Ct(int(e.split(".")[2]), int(e.split(".")[0]), int(e.split(".")[1])) for e in st.split("/")]
-    return found
+            return [(i, None, f"step {i} `{op}`: implementation state {got}, documented {want}")]
+    return []
+
+
+def first_crossed_mul(line, impl_steps):
+    """index of the first ct×ct multiplication whose operands have log_delta and log_budget ordered
+    oppositely (get_mul_ct_params then uses cnv_offset = max(effective_k) instead of
+    max(log_budget) + max(log_delta): the product is scaled down by the difference), or None"""
+    kv, keys, pool, ops = parse_header(line)
+    st = [(d, b) for (_, d, b) in pool]
+    for i, op in enumerate(ops):
+        f = op.split(",")
+        if i >= len(impl_steps):
+            break
+        pair = None
+        try:
+            if f[0] in ("mul", "mul_add_ct", "mul_sub_ct"):
+                pair = (st[int(f[2])], st[int(f[3])])
+            elif f[0] == "mul_assign":
+                pair = (st[int(f[1])], st[int(f[2])])
+        except (IndexError, ValueError):
+            pair = None
+        if pair and impl_steps[i].startswith("ok"):
+            (da, ba), (db, bb) = pair
+            if max(ba, bb) + max(da, db) != max(da + ba, db + bb):
+                return i
+        if "@" in impl_steps[i]:
+            st = [(int(e.split(".")[0]), int(e.split(".")[1])) for e in impl_steps[i].split("@")[1].split("/")]
+        else:
+            break
+    return None
 
 
 def run_both(ctx, binp, drv, lines):
@@ -822,8 +848,18 @@ def run(ctx):
                     unknown.append((line, s, what))
             # values (not judged from the first property violation on: e.g. rescale into a too small
             # destination returns Ok but has dropped the message bits)
+            crossed = first_crossed_mul(line, i)
             for s, dgs in enumerate(dg):
                 if first_finding is not None and s >= first_finding:
+                    break
+                if crossed is not None and s >= crossed:
+                    # the product is mis-scaled from here on: confirm it is visible, report once
+                    if s == crossed and dgs and dgs != "-":
+                        l2e, ld, l2m, lb = dgs.split(":")
+                        if float(l2m) + 1.5 < int(lb) and float(l2e) + int(ld) > 9.0 + 1.5 * s + 2.0 * max(0.0, float(l2m)):
+                            ctx.oracle_failures += 1
+                            findings.setdefault(K_MULCROSS, (line, s, f"step {s} `{ops[s]}`: operands with log_delta and log_budget ordered oppositely: "
+                                                f"decrypted product differs from the complex-number product by 2^{l2e} (log_delta={ld})"))
                     break
                 if dgs and dgs != "-":
                     try:
